@@ -109,8 +109,21 @@ def handle_failure(run, mod, o, known):
     run.violations.append({"obligation": o.name, "replay": last_path, "confirmed": False, "refuted": refuted, "kind": o.kind})
 
 
+def oracle_modules(pid):
+    """the halves of a property's bounded native oracle: oracles/<ID>.py (Python toolkit) and oracles/c_<ID>.py (C code); VERIF_PARTS=py|c
+    restricts the run to one side (as it does for the proof parts, props/_combine.py)"""
+    only = os.environ.get("VERIF_PARTS")
+    mods = []
+    for name, side in ((pid, "py"), ("c_" + pid, "c")):
+        if only in ("py", "c") and only != side:
+            continue
+        if os.path.exists(os.path.join(core.VERIF, "oracles", "%s.py" % name)):
+            mods.append(name)
+    return mods
+
+
 def have_oracle(pid):
-    return os.path.exists(os.path.join(core.VERIF, "oracles", "%s.py" % pid))
+    return bool(oracle_modules(pid))
 
 
 def run_oracle(run, pid, why):
@@ -121,17 +134,29 @@ def run_oracle(run, pid, why):
         run.oracle = {"missing": True, "why": why}
         return run.oracle
     budget = float(os.environ.get("VERIF_ORACLE_S", "0") or 0) or (120.0 if run.tier == "thorough" else 25.0)
-    try:
-        from oracles.run import run_oracle as _ro
-        res = _ro(pid, budget, run.seed)
-    except core.WallClock:
-        raise
-    except Exception as e:
-        res = {"crash": "%s: %s" % (type(e).__name__, str(e)[:300]), "cases": 0, "failures": []}
+    mods = oracle_modules(pid)
+    res = {"cases": 0, "failures": [], "bound": "", "halves": mods}
+    for k, name in enumerate(mods):
+        # both halves exist for the mixed properties: cases summed, failures concatenated, bound texts joined; the budget is shared
+        try:
+            from oracles.run import run_oracle as _ro
+            r1 = _ro(name, budget / len(mods), run.seed)
+        except core.WallClock:
+            raise
+        except Exception as e:
+            r1 = {"crash": "%s: %s" % (type(e).__name__, str(e)[:300]), "cases": 0, "failures": []}
+        res["cases"] += r1.get("cases") or 0
+        res["failures"] += [dict(f, half=name) for f in (r1.get("failures") or [])]
+        res["bound"] = (res["bound"] + (" || " if res["bound"] else "") + ("[%s] " % name if len(mods) > 1 else "") + (r1.get("bound") or "")).strip()
+        if r1.get("crash"):
+            res["crash"] = (res.get("crash", "") + (" | " if res.get("crash") else "") + "[%s] %s" % (name, r1["crash"]))[:900]
+        for key, val in r1.items():
+            if key not in ("cases", "failures", "bound", "crash", "seconds"):
+                res.setdefault("extra", {}).setdefault(name, {})[key] = val
     res["why"] = why
     run.oracle = res
     for i, fl in enumerate((res.get("failures") or [])[:3]):
-        payload = {"property": pid, "obligation": "%s/bounded-native-oracle/%s" % (pid, fl.get("what", "failure")), "function": "oracles/%s.py" % pid,
+        payload = {"property": pid, "obligation": "%s/bounded-native-oracle/%s" % (pid, fl.get("what", "failure")), "function": "oracles/%s.py" % fl.get("half", pid),
                    "clause": str(fl.get("what", "failure")), "kind": "bounded", "engine": "native oracle (bounded stand-in)", "solver": None,
                    "solver_result": "concrete failing input found by the bounded native oracle", "inputs": fl.get("input"),
                    "native": {"confirmed": True, "observed": fl.get("observed"), "expected": fl.get("expected")},
